@@ -280,6 +280,138 @@ def kf3_witness(known, counters, violations):
         counters["witness_KF3_reproduced"] = 0
 
 
+class _Refused(Exception):
+    pass
+
+
+def dual_access_case(rng, counters, digests, violations):
+    """Containers reachable BOTH ways (a mapping with attribute access such as the library's own AttrDict, an object
+    that also supports item access): a write refused through the access form the reference uses must be reported, must
+    not be re-done through the other form, and everything scheduled after it must not run.  Every failing position,
+    several exception classes (incl. AttributeError / KeyError / TypeError, what Python itself raises for refused
+    attribute and item writes), both access forms."""
+    import xdeps
+    from xdeps.utils import AttrDict
+
+    class GuardedAttrDict(AttrDict):
+        """attribute writes to the names in _refuse raise; item writes are the same storage"""
+        def __setattr__(self, k, v):
+            if k != "__dict__" and k in REFUSE["attr"]:
+                LOG.append(("refused", "attr", k))
+                raise REFUSE["exc"]("attribute %r is read-only" % k)
+            if k != "__dict__":
+                LOG.append(("w", "attr", k))
+            dict.__setattr__(self, k, v)
+
+        def __setitem__(self, k, v):
+            if k in REFUSE["item"]:
+                LOG.append(("refused", "item", k))
+                raise REFUSE["exc"]("item %r is read-only" % k)
+            LOG.append(("w", "item", k))
+            dict.__setitem__(self, k, v)
+
+    class GuardedBoth(object):
+        """an object whose fields can also be addressed as items"""
+        def __init__(self, **kw):
+            object.__setattr__(self, "_d", dict(kw))
+
+        def __getattr__(self, k):
+            try:
+                return object.__getattribute__(self, "_d")[k]
+            except KeyError:
+                raise AttributeError(k)
+
+        def __setattr__(self, k, v):
+            if k in REFUSE["attr"]:
+                LOG.append(("refused", "attr", k))
+                raise REFUSE["exc"]("attribute %r is read-only" % k)
+            LOG.append(("w", "attr", k))
+            self._d[k] = v
+
+        def __getitem__(self, k):
+            return self._d[k]
+
+        def __setitem__(self, k, v):
+            if k in REFUSE["item"]:
+                LOG.append(("refused", "item", k))
+                raise REFUSE["exc"]("item %r is read-only" % k)
+            LOG.append(("w", "item", k))
+            self._d[k] = v
+
+        def __contains__(self, k):
+            return k in self._d
+
+        def keys(self):
+            return self._d.keys()
+
+    REFUSE = {"attr": set(), "item": set(), "exc": _Refused}
+    LOG = []
+    names = ["x", "k", "l", "m"]
+    for box_cls, form in ((GuardedAttrDict, "attr"), (GuardedAttrDict, "item"), (GuardedBoth, "attr"), (GuardedBoth, "item")):
+        for exc_cls in (_Refused, AttributeError, KeyError, TypeError, ValueError, LookupError):
+            for pos in range(4):
+                REFUSE.update(attr=set(), item=set(), exc=exc_cls)
+                box = box_cls(x=1.0, k=0.0, l=0.0, m=0.0)
+                mgr = xdeps.Manager()
+                e = mgr.ref(box, "e")
+                loc = (lambda n: getattr(e, n)) if form == "attr" else (lambda n: e[n])
+                if form == "attr":
+                    e.k = 2 * e.x
+                    e.l = e.k + 1
+                    e.m = 10 * e.l
+                else:
+                    e["k"] = 2 * e["x"]
+                    e["l"] = e["k"] + 1
+                    e["m"] = 10 * e["l"]
+                get = lambda: tuple(box[n] for n in names)
+                if get() != (1.0, 2.0, 3.0, 30.0):
+                    violations.append({"what": "C18 dual-access container (%s, %s form): initial values %s" % (box_cls.__name__, form, get())})
+                    return
+                defs0 = sorted(map(tuple, mgr.dump()))
+                desc = "%s, refs in %s form, write of e.%s (position %d) refused with %s" % (box_cls.__name__, form, names[pos], pos, exc_cls.__name__)
+                counters["dual_access_crash_points"] = counters.get("dual_access_crash_points", 0) + 1
+                for attempt, newx in enumerate((3.0, 4.0)):        # two faulty updates in a row
+                    REFUSE[form] = {names[pos]}
+                    del LOG[:]
+                    before = get()
+                    raised = None
+                    try:
+                        if form == "attr":
+                            e.x = newx
+                        else:
+                            e["x"] = newx
+                    except Exception as exc:
+                        raised = exc
+                    want = list(before)
+                    full = (newx, 2 * newx, 2 * newx + 1, 10 * (2 * newx + 1))
+                    for i in range(pos):
+                        want[i] = full[i]
+                    problems = []
+                    if raised is None:
+                        problems.append("the update returned normally")
+                    elif type(raised) is not exc_cls:
+                        problems.append("the caller got %s instead of %s" % (type(raised).__name__, exc_cls.__name__))
+                    if get() != tuple(want):
+                        problems.append("contents %s, expected %s (writes before the failing one applied, the failing one and later ones not)" % (get(), tuple(want)))
+                    if any(ev[0] == "w" for ev in LOG[[i for i, ev in enumerate(LOG) if ev[0] == "refused"][0] + 1:] if any(ev[0] == "refused" for ev in LOG)):
+                        problems.append("writes were performed after the refused one: %s" % LOG)
+                    if sorted(map(tuple, mgr.dump())) != defs0:
+                        problems.append("definitions changed")
+                    if problems:
+                        violations.append({"what": "C18 %s (faulty update %d): %s" % (desc, attempt + 1, "; ".join(problems))})
+                        return
+                REFUSE[form] = set()
+                if form == "attr":
+                    e.x = 5.0
+                else:
+                    e["x"] = 5.0
+                if get() != (5.0, 10.0, 11.0, 110.0):
+                    violations.append({"what": "C18 %s: the fault-free repeat leaves %s, expected (5.0, 10.0, 11.0, 110.0)" % (desc, get())})
+                    return
+                digests.add(digest(["dual", box_cls.__name__, form, exc_cls.__name__, pos]))
+
+
+
 def run_shard(spec):
     rng = random.Random("C18:%s:%s" % (spec["seed"], spec["shard"]))
     mgrmon.install_reach_counters()
@@ -292,6 +424,8 @@ def run_shard(spec):
         return {"evaluations": 1, "digests": [], "samples": [], "counters": counters, "violations": violations, "known": known}
     if spec["shard"] == 0 and kf.is_open("KF3", ID):
         kf3_witness(known, counters, violations)
+    if spec["shard"] < 2:          # once per build (pure / compiled)
+        dual_access_case(rng, counters, digests, violations)
     for g in range(spec["graphs"]):
         run_graph(rng, counters, digests, samples, violations, known)
         if len(violations) >= 5:
